@@ -140,7 +140,7 @@ var c10Fields = core.Mon(c10, "fields", func(w *core.W, c *FieldCase) {
 		w.Skip("not-plainly-derivable")
 		return
 	}
-	sc, err := formula.ParseSourceCode([]byte(c.Src))
+	sc, err := hostParse([]byte(c.Src), true)
 	if err != nil {
 		w.Violation("fields", "C10/unparsable", c, "parses", err.Error(), c.Src)
 		return
